@@ -88,11 +88,21 @@ def _case(draw, tier):
         "hash": draw(st.sampled_from([False, False, True])),
         # distinct spectra whose keys differ only in the 6th decimal of the measured mass
         "near": draw(st.sampled_from([False, False, True])),
+        # every other spectrum has a whole-valued measured mass, printed without a decimal point in text inputs
+        "whole": draw(st.sampled_from([False, False, True])),
     }
 
 
+@st.composite
+def _wk_case(draw, tier):
+    """Text input read through read_pin whose measured-mass key column is whole-valued for some spectra and printed without a
+    decimal point: a confidence chunk holding only such rows is typed integer, another one float."""
+    return {"wk": True, "seed": draw(st.integers(0, 2**31 - 1)), "nspec": draw(st.integers(4, 16)),
+            "chunk": draw(st.integers(2, 9)), "whole_frac": draw(st.sampled_from([0.3, 0.5, 0.7]))}
+
+
 def strategy(tier):
-    return _case(tier)
+    return st.one_of([_case(tier)] * 9 + [_wk_case(tier)])
 
 
 # ---------------------------------------------------------------------------
@@ -120,7 +130,47 @@ def _close(a, b, rtol=1e-12):
     return abs(a - b) <= rtol * max(abs(a), abs(b), 1e-300)
 
 
+def _whole_keys(case):
+    import mokapot
+
+    config_inject.install_pep_stub()
+    rng = np.random.default_rng(case["seed"])
+    rows, rid = [], 0
+    for sp in range(case["nspec"]):
+        mass = float(1000 + sp) if rng.random() < case["whole_frac"] else 1000.5 + sp
+        for k in range(int(rng.integers(1, 4))):
+            rows.append({"SpecId": f"f0_r{rid}", "Label": 1 if rng.random() < 0.6 else -1, "ScanNr": 100 + sp, "ExpMass": mass,
+                         "f0": float(np.round(rng.normal(0, 2), 3)), "Peptide": f"PEP{rid}K", "Proteins": f"p{rid}"})
+            rid += 1
+    df = pd.DataFrame(rows).iloc[rng.permutation(len(rows))].reset_index(drop=True)
+    df.loc[0, "Label"], df.loc[len(df) - 1, "Label"] = 1, -1
+    nspec = df.groupby(["ScanNr", "ExpMass"]).ngroups
+    counts = {}
+    with scratch_dir() as tmp:
+        p = tmp / "in.pin"
+        with open(p, "w") as fh:
+            fh.write("\t".join(df.columns) + "\n")
+            for r in df.itertuples(index=False):
+                fh.write("\t".join(str(int(v)) if (c == "ExpMass" and float(v).is_integer()) else str(v) for c, v in zip(df.columns, r)) + "\n")
+        for chunk in (100000, case["chunk"]):
+            ds = guarded(mokapot.read_pin, p, max_workers=1, sig="read_pin")
+            ds = ds[0] if isinstance(ds, list) else ds
+            out = tmp / f"out{chunk}"
+            out.mkdir()
+            with config_inject.chunk_sizes(confidence=chunk):
+                guarded(mokapot.assign_confidence, [ds], scores=[df["f0"].to_numpy(dtype=float)], descs=[True], eval_fdr=0.5, dest_dir=out,
+                        prefixes=[None], decoys=True, max_workers=1, peps_algorithm="verif_stub", do_rollup=False, sig="assign_confidence")
+            got = pd.concat([_read(out / "targets.psms"), _read(out / "decoys.psms")])
+            counts[chunk] = len(got)
+            require(len(got) == nspec and got["PSMId"].nunique() == nspec, "spectrum-duplicated",
+                    f"{len(got)} PSMs reported for {nspec} distinct spectra (confidence chunk {chunk}, measured masses partly whole-valued "
+                    f"and printed without a decimal point)")
+    return {"nontrivial": True, "classes": ["whole-valued-key-masses-read-pin"], "counters": {"rows_checked": len(df)}}
+
+
 def check(case):
+    if case.get("wk"):
+        return _whole_keys(case)
     if case.get("cli"):
         info = _cli_case(case["seed"])
         return {"nontrivial": True, "classes": ["cli-skip-deduplication"], "counters": {"cli_runs": 2, "rows_checked": info["rows"]}}
@@ -142,7 +192,19 @@ def check(case):
                 df["Peptide"] = [p_[:2] + "#" + p_[2:] if sum(map(ord, p_)) % 3 == 0 else p_ for p_ in df["Peptide"]]
                 df["Proteins"] = [p_ + "#2" if sum(map(ord, p_)) % 2 == 0 else p_ for p_ in df["Proteins"]]
             path = tmp / f"in{ci}{ext}"
-            datagen.write_table(df, path)
+            whole = bool(case.get("whole")) and "ExpMass" in df.columns and not case.get("near") and not case.get("collide")
+            if whole:
+                df = df.copy()
+                m_ = df["ExpMass"].to_numpy(dtype=float).copy()
+                sel_ = df["ScanNr"].to_numpy() % 2 == 0
+                m_[sel_] = np.round(m_[sel_])
+                df["ExpMass"] = m_
+            if whole and ext != ".parquet":
+                dfw = df.astype(object)
+                dfw["ExpMass"] = [str(int(v)) if float(v).is_integer() else repr(float(v)) for v in df["ExpMass"]]
+                datagen.write_table(dfw, path)
+            else:
+                datagen.write_table(df, path)
             psms.append(datagen.build_ondisk(path, df, meta))
             sc = _scores(case, ci, len(df), meta["is_target"])
             scores.append(sc)
@@ -253,6 +315,8 @@ def check(case):
         classes.append("small-conf-chunk")
     if case.get("hash"):
         classes.append("hash-character-in-text-fields")
+    if case.get("whole") and case["key"] >= 2 and not case.get("near") and not case.get("collide"):
+        classes.append("whole-valued-key-masses")
     if case.get("near") and case["key"] >= 2:
         classes.append("spectrum-keys-differing-in-6th-decimal")
     nontrivial = nt_flags["winner_not_first"] and (nt_flags["peptide_multi"] or not case["rollup"])
